@@ -6,25 +6,27 @@
 Writes /verif/seeded/<ID>-m<k>/{patch.diff,demo_test.go,meta.json}. Usage: confirm_seeded.py C01 C02 ..."""
 import json, os, re, shutil, subprocess, sys
 ENV = dict(os.environ, GOFLAGS='-mod=mod', GOPROXY='off')
+MUT = os.environ.get('MUT', '/tmp/mut')      # directory holding <ID>/out/m<k>.*
+TAG = os.environ.get('TAG', 'm')              # id infix: C01-m1 (first wave), C01-w2m1 (second wave)
 def sh(cmd, cwd, timeout=900):
     p = subprocess.run(cmd, cwd=cwd, env=ENV, shell=True, stdout=subprocess.PIPE, stderr=subprocess.STDOUT, text=True, timeout=timeout)
     return p.returncode, p.stdout
 for ID in sys.argv[1:]:
     for k in (1, 2):
-        src = f'/tmp/mut/{ID}/out'
+        src = f'{MUT}/{ID}/out'
         diff, demo, meta = f'{src}/m{k}.diff', f'{src}/m{k}_demo_test.go', f'{src}/m{k}.json'
-        over = f'/verif/seeded/{ID}-m{k}/patch.diff'
+        over = f'/verif/seeded/{ID}-{TAG}{k}/patch.diff'
         if os.path.exists(over):   # an adapted patch (the original no longer applies after a fix commit) takes precedence
             diff = over
-        mj = f'/verif/seeded/{ID}-m{k}/meta.json'
+        mj = f'/verif/seeded/{ID}-{TAG}{k}/meta.json'
         if os.path.exists(mj) and json.load(open(mj)).get('confirmed'):
             print(ID, k, 'already confirmed'); continue
         if not (os.path.exists(diff) and os.path.exists(demo)):
             print(ID, k, 'MISSING files'); continue
-        wt = f'/tmp/confirm/{ID}m{k}'
+        wt = f'/tmp/confirm/{ID}{TAG}{k}'
         sh(f'git -C /repo worktree remove --force {wt}', '/'); shutil.rmtree(wt, ignore_errors=True)
         rc, out = sh(f'git -C /repo worktree add --detach {wt} HEAD', '/')
-        res = {'id': f'{ID}-m{k}', 'property': ID}
+        res = {'id': f'{ID}-{TAG}{k}', 'property': ID}
         try:
             m = json.load(open(meta)) if os.path.exists(meta) else {}
         except Exception:
@@ -54,7 +56,7 @@ for ID in sys.argv[1:]:
             ok = res['demo_without'] == 'passes' and res['demo_with'] == 'fails' and res['suite_with'] == 'passes'
             res['confirmed'] = ok
             print(ID, k, 'confirmed' if ok else 'NOT CONFIRMED', res)
-            d = f'/verif/seeded/{ID}-m{k}'
+            d = f'/verif/seeded/{ID}-{TAG}{k}'
             os.makedirs(d, exist_ok=True)
             if diff != over:
                 shutil.copy(diff, f'{d}/patch.diff')
